@@ -4,6 +4,7 @@
    for every program both models return the same outcome list. *)
 From Coq Require Import List Arith ZArith Bool Permutation.
 From IPC Require Import K KProofs Prog Ideal Unix IdealProofs RefineProofs.
+From IPC Require K Prog Ideal Api ApiProofs ApiInv.
 Import ListNotations.
 
 (* the invariant holds in every reachable state (any history of create / clone / send-with-embedded-handles /
@@ -50,3 +51,23 @@ Example C03_ex :
   snd (i_run i_init [ONew; ONew; OSend 0 5 [ATx 2]; ODrop 2; ORecv 3; ODrop 1; ORecv 3])
   = [RNew 0 1; RNew 2 3; RSent; RDropped; REmpty; RDropped; RDisconnected].
 Proof. vm_compute. reflexivity. Qed.
+
+(* ---- whole-API level (model: Api.v): receivers, members of sets and servers ---- *)
+Module ApiLevel.
+Import K Prog Ideal Api ApiProofs ApiInv.
+Local Open Scope nat_scope.
+
+Theorem C03_api_disconnected_iff : forall s h c,
+  lookup (ah s) h = Some (OR c) -> q (get_chan (ak s) c) = [] ->
+  (snd (a_step s (ARecv h)) = QDisconnected <-> refs (ak s) (RS c) = 0).
+Proof. exact recv_disconnected_iff. Qed.
+Print Assumptions C03_api_disconnected_iff.
+
+(* whatever can receive - a receiver handle, a member of a set, a server - denotes a live channel *)
+Theorem C03_api_receiver_live : forall ops h o c,
+  let s := fst (a_run a_init ops) in
+  lookup (ah s) h = Some o -> In (RR c) (aobj_refs o) ->
+  exists ch, nth_error (chans (ak s)) c = Some ch /\ dead ch = false.
+Proof. exact api_receiver_live. Qed.
+Print Assumptions C03_api_receiver_live.
+End ApiLevel.
